@@ -23,6 +23,10 @@ def replay(path, quiet=False):
         ctx, status, err = core.run_concrete(fn, rp["params"], rp["model"], rp["choices"],
                                             tier=rp.get("tier", "quick"))
     except Exception as exc:
+        if rp.get("label") == "no-unexpected-exception" and type(exc).__name__ == str(rp.get("cls")):
+            print(f"VIOLATION property={rp['property']} replay={path}")
+            print(f"  the harness cannot complete on the real code: {type(exc).__name__}: {exc}")
+            return 1
         # the harness itself crashed on real code with concrete numbers: not a confirmation
         print(f"replay crashed: {type(exc).__name__}: {exc}")
         import traceback
